@@ -97,6 +97,7 @@ def action (s : State) (toks : List String) : Option State :=
   | ["dc"] => some (env s .cRecv)
   | ["ds"] => some (env s .sRecv)
   | ["cwrite", i, m] => match i.toNat?, m.toNat? with | some i, some m => some (env s (.cWrite (seqOfC s i) m)) | _, _ => none
+  | ["cwritebad", _] => some s   -- the encode failure stays on the client: nothing is sent, nothing changes
   | ["cread", i] => i.toNat?.map fun i => env s (.cRead (seqOfC s i))
   | ["cclose", i] => i.toNat?.map fun i => env s (.cClose (seqOfC s i))
   | ["swrite", i, m] => match i.toNat?, m.toNat? with | some i, some m => some (env s (.sWrite (seqOfS s i) m)) | _, _ => none
